@@ -401,21 +401,31 @@ func c08ephemeral(c *an.Ctx) {
 		})
 		c.Check(flagOK, fn, "ephemeral flag from #ephemeral suffix", fn.Pos(), "", "the ephemeral flag is not derived from the #ephemeral name suffix")
 		dummyOK := false
+		dummyCalls := map[ssa.Value]bool{}
 		for _, ci := range an.CallsTo(fn, dummy) {
-			for _, r := range an.Referrers(ci.Value()) {
-				v := r
-				if mi, ok := r.(*ssa.MakeInterface); ok {
-					for _, rr := range an.Referrers(mi) {
-						v = rr
-					}
+			dummyCalls[ci.Value()] = true
+		}
+		// what is stored into the backend field comes (directly, or merged with the disk queue of the other arm) from the
+		// dummy constructor
+		an.Instrs(fn, func(in ssa.Instruction) {
+			st, ok := in.(*ssa.Store)
+			if !ok {
+				return
+			}
+			fa, ok := st.Addr.(*ssa.FieldAddr)
+			if !ok || an.FieldOf(fa) != bf {
+				return
+			}
+			for _, o := range originsOrNone(st.Val) {
+				o = an.Strip(o)
+				if mi, ok := o.(*ssa.MakeInterface); ok {
+					o = an.Strip(mi.X)
 				}
-				if st, ok := v.(*ssa.Store); ok {
-					if fa, ok := st.Addr.(*ssa.FieldAddr); ok && an.FieldOf(fa) == bf {
-						dummyOK = true
-					}
+				if dummyCalls[o] {
+					dummyOK = true
 				}
 			}
-		}
+		})
 		c.Check(dummyOK, fn, "ephemeral gets dummy backend", fn.Pos(), "", "the ephemeral branch does not install the dummy (disk-less) backend")
 	}
 	// 2. auto delete: `go x.deleter.Do(...)` on the edge count==0 && ephemeral
